@@ -98,7 +98,7 @@ let run_mode (m : Machine.mode) (toks : string list) : string =
         if w = last then go s' last r ((ret ^ " @ =") :: acc)
         else go s' w r ((ret ^ " @ " ^ w) :: acc) in
       let step which o r =
-        let (s', v) = typed_step m m s o in
+        let (s', v) = typed_step name_key m m s o in
         emit s' (show_tobs which v) r in
       match toks with
       | [] -> List.rev acc
